@@ -223,8 +223,8 @@ def c19(ctx):
 
 
 # ----------------------------------------------------------------------------- C20
-SR_KINDS = ["point", "scalar", "suite", "pairing", "bdnmask", "cosimask", "pubpoly", "verifier"]
-SR_INV = ["TypeOK", "NoConflict", "ResultsSequential", "Emit"]
+SR_KINDS = ["point", "scalar", "suite", "pairing", "bdnmask", "cosimask", "pubpoly", "verifier", "stream", "predicate"]
+SR_INV = ["TypeOK", "NoConflict", "ResultsSequential", "DrawsDistinct", "Emit"]
 C20_ASSUME = [
     "the schedule quantifier is discharged by the race detector's happens-before analysis of the accesses that were executed (G goroutines released by one barrier, a few repetitions on fresh shared objects), not by TLC: kyber's methods contain no synchronisation points at which a TLC-chosen schedule could be imposed",
     "TLC checks NoConflict / ResultsSequential over all interleavings only for the footprint model (read-only operations = reads of the shared object + writes of private results) and enumerates the workloads; whether a real method has that footprint is what the race detector observes",
@@ -236,32 +236,40 @@ C20_ASSUME = [
 def c20(ctx):
     q = ctx.quick
     wl = os.path.join(ctx.tmp, "C20_workloads.ndjson")
-    ctx.tlc("SharedRead", cfg(constants={"G": 2, "Kinds": SR_KINDS, "Lazy": [], "Cached": []}, invariants=SR_INV), name="C20_pairs", collect=wl)
+    ctx.tlc("SharedRead", cfg(constants={"G": 2, "Kinds": SR_KINDS, "Lazy": [], "Cached": [], "SharedBuf": []}, invariants=SR_INV), name="C20_pairs", collect=wl)
     files = [wl]
     if not q:
         w3 = os.path.join(ctx.tmp, "C20_workloads3.ndjson")
-        ctx.tlc("SharedRead", cfg(constants={"G": 3, "Kinds": SR_KINDS, "Lazy": [], "Cached": []}, invariants=SR_INV), name="C20_triples", collect=w3)
+        ctx.tlc("SharedRead", cfg(constants={"G": 3, "Kinds": SR_KINDS, "Lazy": [], "Cached": [], "SharedBuf": []}, invariants=SR_INV), name="C20_triples", collect=w3)
         files.append(w3)
         # self-test of the model: a lazily normalising read-only method (the implementation layer of finding #9)
         # must violate NoConflict
-        run = ctx.tlc("SharedRead", cfg(constants={"G": 2, "Kinds": ["point"], "Lazy": ["point/MarshalBinary", "point/String", "point/Data"], "Cached": []},
+        run = ctx.tlc("SharedRead", cfg(constants={"G": 2, "Kinds": ["point"], "Lazy": ["point/MarshalBinary", "point/String", "point/Data"], "Cached": [], "SharedBuf": []},
                                         invariants=["TypeOK", "NoConflict", "ResultsSequential"]),
                       name="C20_lazy_selftest", allow_violation=True)
         if not run["violated"]:
             raise Broken("self-test failed: the SharedRead model does not flag in-place normalisation inside a read-only method")
         # the same for a lazily created field of a fresh suite object (first concurrent RandomStream() calls)
-        run = ctx.tlc("SharedRead", cfg(constants={"G": 2, "Kinds": ["suite"], "Lazy": ["suite/RandomStream"], "Cached": []},
+        run = ctx.tlc("SharedRead", cfg(constants={"G": 2, "Kinds": ["suite"], "Lazy": ["suite/RandomStream"], "Cached": [], "SharedBuf": []},
                                         invariants=["TypeOK", "NoConflict", "ResultsSequential"]),
                       name="C20_lazy_suite_selftest", allow_violation=True)
         if not run["violated"]:
             raise Broken("self-test failed: the SharedRead model does not flag lazy initialisation inside a suite's read-only method")
         # and for a package-level cache keyed by the operand (visible only when DIFFERENT shared operands are in flight)
-        run = ctx.tlc("SharedRead", cfg(constants={"G": 2, "Kinds": ["point"], "Lazy": [], "Cached": ["point/MulOperand"]},
+        run = ctx.tlc("SharedRead", cfg(constants={"G": 2, "Kinds": ["point"], "Lazy": [], "Cached": ["point/MulOperand"], "SharedBuf": []},
                                         invariants=["TypeOK", "NoConflict", "ResultsSequential"]),
                       name="C20_cached_selftest", allow_violation=True)
         if not run["violated"]:
             raise Broken("self-test failed: the SharedRead model does not flag a package-level cache keyed by the operand")
-        ctx.cov["extra"].setdefault("selftests", []).append({"lazy_normalisation_flagged_by_model": True,
+        # and for an entropy buffer kept inside a shared stream object: duplicate draws
+        run = ctx.tlc("SharedRead", cfg(constants={"G": 2, "Kinds": ["stream"], "Lazy": [], "Cached": [],
+                                                   "SharedBuf": ["stream/Draw", "stream/DrawLong", "stream/PickScalar"]},
+                                        invariants=["TypeOK", "DrawsDistinct"]),
+                      name="C20_sharedbuf_selftest", allow_violation=True)
+        if not run["violated"]:
+            raise Broken("self-test failed: the SharedRead model does not flag duplicate draws from a shared entropy buffer")
+        ctx.cov["extra"].setdefault("selftests", []).append({"shared_entropy_buffer_flagged_by_model": True,
+                                                             "lazy_normalisation_flagged_by_model": True,
                                                              "lazy_suite_field_flagged_by_model": True,
                                                              "package_level_cache_flagged_by_model": True})
     race = _bin(ctx, race=True)
@@ -279,7 +287,7 @@ def c20(ctx):
         if hr:
             raise Broken("the race detector reported a race that does not touch kyber (harness defect):\n" + hr[0][:3000])
     return ctx.finish("exploration",
-                      "workload = (object kind, representation (decoded / arith values; fresh = new suite / scheme / mask / PubPoly object whose first calls are made concurrently by the goroutines; warm = one stream object shared), objects (same = one shared object; distinct = the operations run on two different shared objects concurrently through the same suite / scheme / package code), multiset of 2 (thorough: also 3) read-only operations) enumerated by TLC from spec/SharedRead.tla x configuration (21 groups, 9 scalar implementations, 9 suites, 5 pairing suites, BDN/CoSi masks, 5 PubPoly groups, 11 verifiers); distinct = (kind, configuration, representation, operations)",
+                      "workload = (object kind, representation (decoded / arith values; fresh = new suite / scheme / mask / PubPoly object whose first calls are made concurrently by the goroutines; warm = one stream object shared), objects (same = one shared object; distinct = the operations run on two different shared objects concurrently through the same suite / scheme / package code), multiset of 2 (thorough: also 3) read-only operations) enumerated by TLC from spec/SharedRead.tla x configuration (21 groups, 9 scalar implementations, 9 suites, 5 pairing suites, BDN/CoSi masks, 5 PubPoly groups, 11 verifiers, 6 shared random streams (draws pairwise distinct), 2 shared proof.Predicate trees); distinct = (kind, configuration, representation, operations)",
                       C20_ASSUME, exhaustive=False)
 
 
